@@ -97,10 +97,15 @@ class Budget:
     def __init__(self, max_cases, max_seconds):
         self.max_cases = max_cases
         self.deadline = time.time() + max_seconds
+        # on a loaded machine the wall-clock cap must not starve the workload below what the reached-or-inconclusive
+        # counters need: a floor of cases is always run (the shard watchdog in the runner is far more generous)
+        self.min_cases = min(max_cases, max(20, max_cases // 8))
         self.n = 0
 
     def more(self):
-        if self.n >= self.max_cases or time.time() > self.deadline:
+        if self.n >= self.max_cases:
+            return False
+        if time.time() > self.deadline and self.n >= self.min_cases:
             return False
         self.n += 1
         return True
